@@ -21,7 +21,7 @@ for name in sorted(os.listdir(sd)):
         name, m['property'], title.replace('|', '/'), m.get('baseline_with_change', '').replace('baseline: ', ''),
         m['demo_with_change']['exit'], m['demo_without_change']['exit'],
         ','.join(m.get('caught_by', [])) or ('none (benign for the property as read, see missed.md)' if m.get('benign') else '**none**'), first))
-n_other = sum(1 for r, o in zip(rows, own) if not o and 'none' not in r.split('|')[7])
+n_other = sum(1 for r, o in zip(rows, own) if not o and 'none (benign' not in r)
 n_benign = sum(1 for r in rows if 'none (benign' in r)
 head = ('# Changes seeded by independent sub-agents\n\nEach sub-agent saw only the text of one property and a scratch worktree of /repo '
         '(nothing from /verif). For every change: `patch.diff`, the agent\'s stand-alone `demo.py` (exit 1 with the change, 0 without) and '
